@@ -185,7 +185,7 @@ def frLine (s : St) (w : Whole) : String :=
     let m := w.b.m
     let log := m.serial.log.map (·.toNat)
     s!"pix={hex8 (sumVec w.b.pix.frame)} cram={hex8 (sumList m.cart.dump)} serial={log.length}:{hex8 (sumList log)} " ++
-    s!"samples={s.nS} {hex8 s.ckL} {hex8 s.ckR}"
+    s!"samples={s.nS} {hex8 s.ckL} {hex8 s.ckR} dump=stable"
 
 def romDir : IO String := do
   let r := (← IO.getEnv "VERIF_REPO").getD "/repo"
